@@ -32,7 +32,6 @@ import (
 	"github.com/ipfs/ipfs-cluster/state/dsstate"
 	"github.com/ipfs/ipfs-cluster/test"
 
-	hcodec "github.com/hashicorp/go-msgpack/codec"
 	hraft "github.com/hashicorp/raft"
 	cid "github.com/ipfs/go-cid"
 	host "github.com/libp2p/go-libp2p-core/host"
@@ -850,10 +849,9 @@ func (r *vC01Rig) reinstall(l, f *vC01Node, fHeld bool) string {
 	if err != nil {
 		return "skipped"
 	}
-	var cbuf bytes.Buffer
-	if err := hcodec.NewEncoder(&cbuf, &hcodec.MsgpackHandle{}).Encode(meta.Configuration); err != nil {
-		return "skipped"
-	}
+	// hashicorp/raft's encodeConfiguration is msgpack of the Configuration struct (go-msgpack, a fork of the ugorji codec the
+	// repository already uses; importing go-msgpack directly would make the go command add it to the repository's go.mod)
+	cbytes := vC01Encode(meta.Configuration)
 	_, ht := hraft.NewInmemTransportWithTimeout(hraft.ServerAddress("vc01-resend"), 2*time.Second)
 	ht.Connect(f.addr, f.trans)
 	defer ht.DisconnectAll()
@@ -865,7 +863,7 @@ func (r *vC01Rig) reinstall(l, f *vC01Node, fHeld bool) string {
 		LastLogIndex:       meta.Index,
 		LastLogTerm:        meta.Term,
 		Size:               int64(len(data)),
-		Configuration:      cbuf.Bytes(),
+		Configuration:      cbytes,
 		ConfigurationIndex: meta.ConfigurationIndex,
 	}
 	var resp hraft.InstallSnapshotResponse
